@@ -284,7 +284,13 @@ class Interp(object):
         kind = op["op"]
         if self.lay is None and kind not in ("randomize", "init_matrix"):
             raise ValueError("history must start with an initialisation")
+        self._pending_repl = None
         getattr(self, "_op_" + kind)(op)
+        if self._pending_repl is not None:
+            repl, self._pending_repl = self._pending_repl, None
+            self._op_pathloss(dict(
+                op="pathloss", kind="same" if repl == "reset_same"
+                else "matrix", seed=int(op.get("seed", 0)) + 17, noarg=False))
         self._cheap_invariant()
         if self.sweep_mode == "every":
             self.sweep()
@@ -307,7 +313,18 @@ class Interp(object):
         if want == self.lay:
             return self.lay
         if self.PL is not None or self.W is not None:
-            if not op.get("force"):
+            f = op.get("force")
+            if f in ("reset_same", "reset_new") and self.W is None \
+                    and self.PL is not None and len(want["Nr"]) == self.K \
+                    and len(want.get("NtE") or []) == self.E:
+                # re-layout while a path loss is set, IMMEDIATELY followed by
+                # a new set_pathloss (what the apps do): nothing is observed
+                # in between, afterwards every view must be coherent again
+                self._pending_repl = f
+                self.ctx.label("relayout_then_set_pathloss:" + f)
+                self.ctx.label("relayout")
+                return want
+            if not f:
                 self.ctx.label("relayout_suppressed")
                 return self.lay
             if self.PL is not None:
@@ -393,7 +410,9 @@ class Interp(object):
                 self.ctx.label("known_stale_avoided")
                 self._init_from(self.lay, self.raw)
             K, E = self.K, self.E
-            if kind == "ones":
+            if kind == "same":
+                new = np.array(self.PL, dtype=float, copy=True)
+            elif kind == "ones":
                 new = np.ones((K, K + E))
             else:
                 rs = np.random.RandomState(int(op["seed"]))
@@ -757,10 +776,11 @@ def _sized_list(elem, sizes):
 def _ops_st(tier, cls):
     views = EXT_VIEWS if cls == "extint" else PLAIN_VIEWS
     lay = st.one_of(st.none(), st.none(), _layout_st(tier))
+    force = st.sampled_from([False, True, "reset_same", "reset_new"])
     randomize = fixed(op=st.just("randomize"), layout=lay,
-                      force=st.booleans(), ints=st.booleans())
+                      force=force, ints=st.booleans(), seed=seeds)
     init_m = fixed(op=st.just("init_matrix"), layout=lay,
-                   force=st.booleans(), ints=st.booleans(), seed=seeds,
+                   force=force, ints=st.booleans(), seed=seeds,
                    kind=st.sampled_from(["complex", "complex", "int"]))
     pathloss = fixed(op=st.just("pathloss"),
                      kind=st.sampled_from(["matrix", "matrix", "matrix",
